@@ -5,6 +5,9 @@ package main
 
 //@ import "github.com/Cloud-Foundations/keymaster/lib/vip"
 //@ import "github.com/Cloud-Foundations/keymaster/lib/pwauth/okta"
+//@ import "github.com/tstranex/u2f"
+//@ import "github.com/duo-labs/webauthn/webauthn"
+//@ import "github.com/duo-labs/webauthn/protocol"
 //@ use strings nethttp fmt oauth2 neturl time ssh crypto errors x509 keymasterd_jose pwauth cfssl
 
 // ---- C17: post-login redirects stay on the keymaster origin ------------------------------------
@@ -260,3 +263,24 @@ package main
 //@   atcall okta.PasswordAuthenticator).ValidateUserOTP sets ghostVerifiedBits int (pa *okta.PasswordAuthenticator, user string, otp int, ok bool, err error) :: ghostVerifiedBits | AuthTypeOkta2FA if ok && err == nil && user == ghostAuthUser
 //@ func (*RuntimeState).oktaPollCheckHandler
 //@   atcall okta.PasswordAuthenticator).ValidateUserPush sets ghostVerifiedBits int (pa *okta.PasswordAuthenticator, user string, resp okta.PushResponse, err error) :: ghostVerifiedBits | AuthTypeOkta2FA if resp == okta.PushResponseApproved && err == nil && user == ghostAuthUser
+
+// the profile most recently loaded in this request, and whose it is (ghost)
+//@ ghost var ghostProfile *userProfile
+//@ ghost var ghostProfileUser string
+//@ func (*RuntimeState).LoadUserProfile
+//@   results profile, ok, fromCache, err
+//@   ghostset ghostProfile *userProfile = profile if err == nil
+//@   ghostset ghostProfileUser string = username if err == nil
+//@   ensures err == nil ==> profile != nil
+
+// hardware tokens: the assertion must answer the challenge stored for the authenticated user, and the challenge
+// must be gone before the session is upgraded (one-time)
+//@ func (*RuntimeState).u2fSignResponse
+//@   loop 1 (authData *authInfo, localAuth localUserData) invariant ghostAuthed && authData.Username == ghostAuthUser && authData.AuthType == ghostAuthLevel && ghostProfileUser == ghostAuthUser && ghostVerifiedBits == 0 && hasKey(state.localAuthData, ghostAuthUser) && same(state.localAuthData[ghostAuthUser], localAuth)  #C05.u2f-loop @C05
+//@   loop 2 (authData *authInfo, localAuth localUserData) invariant ghostAuthed && authData.Username == ghostAuthUser && authData.AuthType == ghostAuthLevel && ghostProfileUser == ghostAuthUser && ghostVerifiedBits == 0 && hasKey(state.localAuthData, ghostAuthUser) && same(state.localAuthData[ghostAuthUser], localAuth)  #C05.u2f-loop2 @C05
+//@   atcall u2f.Registration).Authenticate sets ghostVerifiedBits int (reg *u2f.Registration, resp u2f.SignResponse, c u2f.Challenge, counter uint32, newCounter uint32, err error) :: ghostVerifiedBits | AuthTypeU2F if err == nil && ghostProfileUser == ghostAuthUser && hasKey(state.localAuthData, ghostAuthUser) && same(c, *state.localAuthData[ghostAuthUser].U2fAuthChallenge)
+//@   atcall (*RuntimeState).updateAuthCookieAuthlevel requires (s2 *RuntimeState, w2 http.ResponseWriter, r2 *http.Request, username string, authlevel int) :: !hasKey(state.localAuthData, ghostAuthUser)  #C05.u2f-challenge-consumed @C05
+//@ func (*RuntimeState).webauthnAuthFinish
+//@   atcall webauthn.WebAuthn).ValidateLogin sets ghostVerifiedBits int (wa *webauthn.WebAuthn, user webauthn.User, session webauthn.SessionData, parsed *protocol.ParsedCredentialAssertionData, cred *webauthn.Credential, err error) :: ghostVerifiedBits | AuthTypeU2F | AuthTypeFIDO2 if err == nil && ghostProfileUser == ghostAuthUser && isType[*userProfile](user) && asType[*userProfile](user) == ghostProfile && hasKey(state.localAuthData, ghostAuthUser) && same(session, *state.localAuthData[ghostAuthUser].WebAuthnChallenge)
+//@   atcall protocol.ParsedCredentialAssertionData).Verify sets ghostVerifiedBits int (parsed *protocol.ParsedCredentialAssertionData, storedChallenge string, rpID string, rpOrigin string, appID string, verifyUser bool, credentialBytes []byte, err error) :: ghostVerifiedBits | AuthTypeU2F if err == nil && ghostProfileUser == ghostAuthUser && hasKey(state.localAuthData, ghostAuthUser) && storedChallenge == state.localAuthData[ghostAuthUser].WebAuthnChallenge.Challenge
+//@   atcall (*RuntimeState).updateAuthCookieAuthlevel requires (s2 *RuntimeState, w2 http.ResponseWriter, r2 *http.Request, username string, authlevel int) :: !hasKey(state.localAuthData, ghostAuthUser)  #C05.webauthn-challenge-consumed @C05
